@@ -968,8 +968,21 @@ impl VM {
             self.push(Rc::new(P(Empty)), pos)?;
             return Ok(());
         }
+        // Describe the target by its field names or length only. Its values
+        // may be secrets, for `env.NAME` it is the whole process environment.
+        let target = match left.as_ref() {
+            C(Tuple(flds, _)) => format!(
+                "Tuple with fields [{}]",
+                flds.iter()
+                    .map(|(k, _)| k.as_ref())
+                    .collect::<Vec<&str>>()
+                    .join(", ")
+            ),
+            C(List(elems, _)) => format!("List of {} items", elems.len()),
+            other => other.type_name().to_string(),
+        };
         Err(Error::new(
-            format!("Invalid selector index: {:?} target: {:?}", right, left).into(),
+            format!("Invalid selector index: {:?} target: {}", right, target).into(),
             pos,
         ))
     }
